@@ -43,6 +43,7 @@ VARIANTS = {
     "flt-checkasm": dict(cc=CLANG, opt=["-O2", "-g"], defs=["-DENABLE_ASSERTIONS", "-DOPUS_CHECK_ASM"] + HOOK, fixed=False, x86=True, root="repo"),
     "fix-checkasm": dict(cc=CLANG, opt=["-O2", "-g"], defs=["-DENABLE_ASSERTIONS", "-DOPUS_CHECK_ASM"] + HOOK, fixed=True, x86=True, root="repo"),
     "flt-tsan": dict(cc=CLANG, opt=["-O1", "-g", "-fsanitize=thread", "-fno-omit-frame-pointer"], defs=HOOK, fixed=False, x86=True, root="repo"),
+    "fix-tsan": dict(cc=CLANG, opt=["-O1", "-g", "-fsanitize=thread", "-fno-omit-frame-pointer"], defs=HOOK, fixed=True, x86=True, root="repo"),
     "flt-opt": dict(cc=CLANG, opt=["-O2", "-g"], defs=["-DENABLE_ASSERTIONS"] + HOOK, fixed=False, x86=True, root="repo"),
     "fix-opt": dict(cc=CLANG, opt=["-O2", "-g"], defs=["-DENABLE_ASSERTIONS"] + HOOK, fixed=True, x86=True, root="repo"),
     # frozen reference: gcc, portable C only, no sanitizers, symbols prefixed
